@@ -334,6 +334,11 @@ pub fn verif_dir() -> PathBuf {
     std::env::var("VERIF_DIR").map(PathBuf::from).unwrap_or_else(|_| PathBuf::from("/verif"))
 }
 
+/// Where evidence and replay files are written (VERIF_OUT overrides, used for mutant runs).
+pub fn out_dir() -> PathBuf {
+    std::env::var("VERIF_OUT").map(PathBuf::from).unwrap_or_else(|_| verif_dir())
+}
+
 pub fn load_known(prop: &str) -> Vec<KnownFinding> {
     let p = verif_dir().join("known_findings.json");
     let Ok(s) = std::fs::read_to_string(&p) else { return vec![] };
@@ -397,7 +402,7 @@ struct ShardResult<C> {
 type Slot<C> = Mutex<Option<(Instant, C)>>;
 
 fn write_replay<P: Prop>(p: &P, case: &P::Case, failure: Option<&Failure>, opts: &RunOpts, note: &str) -> PathBuf {
-    let dir = verif_dir().join("replays").join(p.id());
+    let dir = out_dir().join("replays").join(p.id());
     let _ = std::fs::create_dir_all(&dir);
     let cv = serde_json::to_value(case).unwrap();
     let h = str_hash(&cv.to_string());
@@ -564,7 +569,7 @@ pub fn run_prop<P: Prop>(p: P, opts: RunOpts) -> i32 {
         "wall_s": (wall * 1000.0).round() / 1000.0,
         "violations": failures.len(),
     });
-    let evdir = verif_dir().join("evidence");
+    let evdir = out_dir().join("evidence");
     let _ = std::fs::create_dir_all(&evdir);
     std::fs::write(evdir.join(format!("{}.json", p.id())), serde_json::to_string_pretty(&ev).unwrap() + "\n").unwrap();
 
